@@ -102,7 +102,8 @@ impl Unit {
                 ProtocolContext {
                     codec: ProtocolCodec::Identity(32),
                     tx,
-                    fallback_names: Vec::new(),
+                    // protocols with an odd index have one fallback name (ops 7 and 8)
+                    fallback_names: if i % 2 == 1 { vec![ProtocolName::from(format!("/c07/unit/{i}/fb"))] } else { Vec::new() },
                     keep_alive: SubstreamKeepAlive::Yes,
                 },
             );
@@ -277,6 +278,46 @@ fn run_unit(case: &mut [u64]) -> Vec<u64> {
                 tr.push(mgr + rest[1 + 2 * cnt]);
                 tr.push(early.min(1));
             }
+            7 => {
+                // what accept does, then `protocol_codec` (an `.expect`) under every name the set offers for
+                // negotiation: a name without a protocol behind it would kill the connection task silently
+                let (mut set, id) = u.protocol_set();
+                let endpoint = Endpoint::Dialer { address: "/ip4/127.0.0.1/tcp/1".parse().unwrap(), connection_id: id };
+                let peer = u.peer;
+                let _ = rt.block_on(async { set.verif_report_connection_established(peer, endpoint).await });
+                let advertised: Vec<ProtocolName> = set.protocols_with_keep_alives().keys().cloned().collect();
+                let mut panics = 0u64;
+                for name in advertised.iter() {
+                    if std::panic::catch_unwind(std::panic::AssertUnwindSafe(|| set.protocol_codec(name))).is_err() {
+                        panics += 1;
+                    }
+                }
+                tr.push(panics);
+                u.drain(&mut tr);
+                tr.push(advertised.len() as u64);
+            }
+            8 => {
+                // report_substream_open under name code a: 2i main name of protocol i, 2i+1 its fallback name
+                let i = a / 2;
+                let name = if i < n {
+                    if a % 2 == 0 { u.names[i].clone() } else { ProtocolName::from(format!("/c07/unit/{i}/fb")) }
+                } else {
+                    ProtocolName::from("/c07/unit/unknown")
+                };
+                let (mut set, _) = u.protocol_set();
+                let peer = u.peer;
+                let failed = match set.try_get_permit() {
+                    Some(permit) => {
+                        let (io, _other) = tokio::io::duplex(16);
+                        let sub = litep2p::substream::Substream::new_verif(peer, SubstreamId::from(0usize), Box::new(io), ProtocolCodec::Identity(32));
+                        rt.block_on(async { set.report_substream_open(peer, name, Direction::Inbound, sub, permit).await }).is_err()
+                    }
+                    None => true,
+                };
+                tr.push(failed as u64);
+                u.drain(&mut tr);
+                tr.push(0);
+            }
             _ => return vec![0],
         }
     }
@@ -291,18 +332,22 @@ fn gen_unit(rng: &mut Rng) -> Vec<u64> {
         let r = rng.below(100);
         let op = if r < 9 {
             1
-        } else if r < 42 {
+        } else if r < 34 {
             2
-        } else if r < 64 {
+        } else if r < 54 {
             3
-        } else if r < 78 {
+        } else if r < 64 {
             4
-        } else if r < 82 {
+        } else if r < 68 {
             5
-        } else {
+        } else if r < 82 {
             6
+        } else if r < 90 {
+            7
+        } else {
+            8
         };
-        c.extend([op, rng.below(n), 0]);
+        c.extend([op, if op == 8 { rng.below(2 * n + 2) } else { rng.below(n) }, 0]);
     }
     c
 }
@@ -1140,6 +1185,7 @@ fn run_many(rt: &tokio::runtime::Runtime, cases: Vec<Vec<u64>>, par: usize, out:
     // unit cases run inline; end-to-end scenarios run `par` at a time, results are emitted in order
     let mut results: Vec<Option<(Vec<u64>, Vec<u64>)>> = cases.iter().map(|_| None).collect();
     let mut e2e: Vec<usize> = Vec::new();
+    let mut lp: Vec<usize> = Vec::new();
     for (i, c) in cases.iter().enumerate() {
         match c.first() {
             Some(0) if c.len() >= 3 => {
@@ -1152,7 +1198,40 @@ fn run_many(rt: &tokio::runtime::Runtime, cases: Vec<Vec<u64>>, par: usize, out:
                 results[i] = Some((c.clone(), t));
             }
             Some(1) if c.len() >= 4 => e2e.push(i),
+            Some(3) => lp.push(i),
             _ => results[i] = Some((c.clone(), vec![0])),
+        }
+    }
+    // loop-level cases: each on its own thread with its own current-thread runtime (the connection task is
+    // polled by hand there), `par` at a time
+    {
+        let queue = Arc::new(Mutex::new(lp.iter().map(|&i| (i, cases[i].clone())).collect::<Vec<_>>()));
+        let done: Arc<Mutex<Vec<(usize, Vec<u64>, Vec<u64>)>>> = Arc::new(Mutex::new(Vec::new()));
+        let workers: Vec<_> = (0..par.max(1).min(lp.len()))
+            .map(|_| {
+                let (queue, done) = (queue.clone(), done.clone());
+                std::thread::spawn(move || loop {
+                    let Some((i, mut c)) = queue.lock().unwrap().pop() else { break };
+                    let t0 = Instant::now();
+                    let t = std::panic::catch_unwind(std::panic::AssertUnwindSafe(|| crate::c07_loop::run_loop(&mut c)))
+                        .unwrap_or(vec![PANIC_MARK]);
+                    if std::env::var("C07_LOOP_TIMING").is_ok() {
+                        eprintln!("loop case {:?} ms {}", &c, t0.elapsed().as_millis());
+                    }
+                    done.lock().unwrap().push((i, c, t));
+                })
+            })
+            .collect();
+        for w in workers {
+            let _ = w.join();
+        }
+        for (i, c, t) in done.lock().unwrap().drain(..) {
+            results[i] = Some((c, t));
+        }
+        for &i in &lp {
+            if results[i].is_none() {
+                results[i] = Some((cases[i].clone(), vec![PANIC_MARK]));
+            }
         }
     }
     for chunk in e2e.chunks(par.max(1)) {
@@ -1203,6 +1282,7 @@ pub fn main(args: &Args) {
     // with the `quic` feature) runs every scenario over QUIC instead
     let transports: Vec<u64> = if args.u64("quic", 0) == 1 { vec![2] } else { vec![0, 0, 1] };
     let every = args.u64("e2e-every", if thorough { 15 } else { 12 }).max(1);
+    let loop_every = args.u64("loop-every", 5).max(1);
     for i in 0..ncases {
         let mut r = rng.fork();
         cases.push(gen_unit(&mut r));
@@ -1214,6 +1294,16 @@ pub fn main(args: &Args) {
             let mut r = rng.fork();
             cases.push(gen_e2e(&mut r, thorough, &transports));
         }
+        if i % loop_every == 0 {
+            let mut r = rng.fork();
+            let trs: &[u64] = if args.u64("quic", 0) == 1 { &[2] } else { &[0, 0, 1] };
+            cases.push(crate::c07_loop::gen_loop(&mut r, trs));
+        }
+    }
+    if let Some(k) = args.str("only") {
+        // debugging aid: keep the cases of one kind
+        let k: u64 = k.parse().unwrap_or(0);
+        cases.retain(|c| c.first() == Some(&k));
     }
     run_many(&rt, cases, par, &mut out);
 }
